@@ -27,16 +27,19 @@ import mirx  # noqa: E402
 import bmc  # noqa: E402
 
 
+REPO = os.environ.get("E3_REPO", "/repo")  # E3_REPO: only for trying seeded changes in a scratch copy
+
+
 def dump_mir():
     src = os.path.join(WORK, "e3src")
     shutil.rmtree(src, ignore_errors=True)
     os.makedirs(src)
     for f in ("Cargo.toml", "Cargo.lock"):
-        shutil.copy(os.path.join("/repo", f), src)
-    shutil.copytree("/repo/src", os.path.join(src, "src"))
+        shutil.copy(os.path.join(REPO, f), src)
+    shutil.copytree(os.path.join(REPO, "src"), os.path.join(src, "src"))
     for d in ("benches", "tests"):
-        if os.path.isdir(os.path.join("/repo", d)):
-            shutil.copytree(os.path.join("/repo", d), os.path.join(src, d))
+        if os.path.isdir(os.path.join(REPO, d)):
+            shutil.copytree(os.path.join(REPO, d), os.path.join(src, d))
     env = dict(os.environ, CARGO_NET_OFFLINE="true", CARGO_TARGET_DIR=os.path.join(WORK, "e3target"))
     env.pop("RUSTFLAGS", None)
     p = subprocess.run(["cargo", "+nightly", "rustc", "--offline", "--lib", "--", "-Zunpretty=mir", "-C", "debug-assertions=off"],
@@ -110,7 +113,7 @@ class Run:
                 continue
             tid, s, l, d = M.edges[e]
             role, A, j = M.auts[tid]
-            tr.append([role if j is None else "job%d" % j, list(map(str, l))])
+            tr.append([role if j is None else "job%d" % j, [" ".join(map(str, x)) for x in l]])
         ev = lambda x: str(m.eval(x, model_completion=True))
         return dict(scenario=dict(sets=ev(M.K), reader_error=ev(M.ENDERR), reader_init_fails=ev(M.RIFAIL), dataset_init_fails_at_call=ev(M.DIFAIL)),
                     steps=tr, last_state={k: ev(v) for k, v in self.S[upto].items() if k in ("ndeliv", "nerrdeliv", "created", "nfill", "panic", "sawnone", "dup", "badpair", "badorder", "qD_len", "qE_len", "sD", "rD", "sE", "rE", "pc0", "pc1")})
@@ -157,8 +160,9 @@ def props(run, prop):
 
 
 CONFIGS = {
-    "quick": [(1, 1, 2, 46), (2, 2, 2, 56)],
-    "thorough": [(1, 1, 2, 46), (1, 2, 2, 46), (2, 1, 2, 56), (2, 2, 2, 56), (1, 2, 3, 60), (2, 2, 3, 70)],
+    # (queue_len, n_threads, max record sets, depth)
+    "quick": [(1, 1, 1, 30), (1, 2, 2, 40)],
+    "thorough": [(1, 1, 1, 30), (1, 1, 2, 40), (1, 2, 2, 40), (2, 1, 2, 46), (2, 2, 2, 46)],
 }
 
 
@@ -239,9 +243,48 @@ def native_replay(q):
         p = subprocess.run([exe, json.dumps(dict(config=q["config"], scenario=q["trace"]["scenario"], steps=q["trace"]["steps"], query=q["query"]))],
                            capture_output=True, text=True, timeout=120)
         last = [l for l in p.stdout.splitlines() if l.startswith("{")]
-        return json.loads(last[-1]) if last else dict(reproduced=False, why="no output", raw=p.stdout[-500:] + p.stderr[-500:])
+        if not last:
+            return dict(reproduced=False, why="no output", raw=p.stdout[-500:] + p.stderr[-500:])
+        runs = [json.loads(l) for l in last]
+        for f in runs:
+            if observed_violation(q["query"], f, q["trace"]["scenario"]):
+                f["reproduced"] = True
+                return f
+        f = runs[-1]
+        f["reproduced"] = False
+        f["why"] = "the real run under the counterexample's scenario and schedule does not show the violation"
+        return f
     except subprocess.TimeoutExpired:
         return dict(reproduced=False, why="replayer timed out")
+
+
+def observed_violation(query, f, scen):
+    """does the native run show what the query's counterexample claims?"""
+    sets = f["sets"]
+    dl = f["delivered"]
+    if "no panic" in query:
+        return f["panicked"]
+    if "deadlock" in query or "terminated within" in query or "depth bound" in query:
+        return f["hung"]
+    if "delivered twice or with another" in query:
+        return len(set(dl)) != len(dl) or any(a != b for a, b in zip(dl, f["outs"]))
+    if "every record set exactly once" in query:
+        return f["none_seen"] and sorted(dl) != list(range(sets))
+    if "file order" in query:
+        return dl != sorted(dl)
+    if "at most once" in query:
+        return f["errs"] > 1
+    if "error exactly once" in query:
+        return f["none_seen"] and (f["errs"] != 1 or sorted(dl) != list(range(sets)))
+    if "returned as an error" in query:
+        return f["result"] == "Ok"
+    if "returns Ok" in query:
+        return f["result"].startswith("Err")
+    if "data sets are ever created" in query:
+        return f["created"] > f["queue_len"] + 1
+    if "ahead of the consumer" in query:
+        return False
+    return False
 
 
 def write_evidence(prop, tier, allq, funcs, states, transitions, wall, nviol, known, note=""):
